@@ -20,6 +20,7 @@
      VIOL class=capture-under-binder <name> core: <why>     the known fun2core capture defect: ONLY when
                                  [shadowing_risk_prog] holds of the source AND the first ill-typed stage is core
                                  AND the failure is an occurrence resolved to a binder of another chirality/type
+                                 (or two parameters of the same name in a shared continuation share_<def>_<k>)
      VIOL class=ill-typed-stage:<stage> <name> <why>        any other failure of a checker
      VIOL class=internal-failure:<stage> <name> <panic message>    any non-capacity panic, any panic within capacity
      OK k nt <risk> x86:<ok|ok-beyond|cap> a64:<..> rv:<ok|ok-beyond|cap|noprint> ctx<log2 max context> size<log2 nodes>
@@ -110,7 +111,10 @@ Definition backend_check (b : string) (within : bool) (r : sexp) : string * outc
 Fixpoint contains (needle s : string) : bool :=
   prefix needle s || match s with EmptyString => false | String _ r => contains needle r end.
 Definition is_rebinding_message (why : string) : bool :=
-  contains ": variable " why && contains " but bound as " why.
+  (contains ": variable " why && contains " but bound as " why)
+  (* second face: the captured name and the capturing binder both become parameters of a SHARED
+     continuation (corpus/fun/c12_capture_share_dup.sc) *)
+  || (prefix "def share_" why && contains ": duplicate parameter" why).
 
 Definition find_stage (name : string) (l : list sexp) : sexp :=
   match find (fun x => match x with L [A n; _] => String.eqb n name | _ => false end) l with
